@@ -23,13 +23,18 @@ structure Parsed where
   expect : Option Nat
   expectrr : Option Nat
   errOnConflicts : Bool
+  /-- per production: the token named by `%prec`, as read off the source -/
+  explicitPrec : Option (List (Option Nat)) := none
 
 def parse (args : List Nat) : Option Parsed := do
   let (G, rest) ← parseGrammarPrec args
   let (A, rest) ← parseAutomaton G rest
   match rest with
-  | e :: er :: eoc :: _ =>
-    some ⟨G, A, if e = 0 then none else some (e - 1), if er = 0 then none else some (er - 1), eoc != 0⟩
+  | e :: er :: eoc :: rest =>
+    let ep := match rest with
+      | 1 :: l => some ((l.take G.nprods).map (fun x => if x = 0 then none else some (x - 1)))
+      | _ => none
+    some ⟨G, A, if e = 0 then none else some (e - 1), if er = 0 then none else some (er - 1), eoc != 0, ep⟩
   | _ => none
 
 def sortQuads (l : List (Nat × Nat × Nat × Nat)) : List (Nat × Nat × Nat × Nat) :=
@@ -102,6 +107,23 @@ def specCounts (P : Parsed) : Nat × Nat :=
   (cells.foldl (fun acc c => match c with | some (_, _, some _) => acc + 1 | _ => acc) 0,
    cells.foldl (fun acc c => match c with | some (_, n, _) => acc + n | _ => acc) 0)
 
+/-- Yacc's rule for the precedence of a production: that of the token named by `%prec`, else that of
+the LAST token of the right-hand side (none if it has no token or that token has no precedence) -/
+def specProdPrec (G : Grammar) (explicit : Option Nat) (p : Nat) : Option Prec :=
+  match explicit with
+  | some t => (G.tokPrec[t]?).getD none
+  | none =>
+    match ((G.rhs p).filterMap (fun X => match X with | .tok t => some t | .rule _ => none)).getLast? with
+    | some t => (G.tokPrec[t]?).getD none
+    | none => none
+
+/-- productions whose dumped precedence differs from Yacc's rule -/
+def badProdPrecs (P : Parsed) : List Nat :=
+  match P.explicitPrec with
+  | none => []
+  | some ep => (List.range P.G.nprods).filter (fun p =>
+      (P.G.prodPrec[p]?).getD none != specProdPrec P.G (ep.getD p none) p)
+
 /-- must a compile-time build fail? (`%expect`/`%expect-rr` default 0) -/
 def specBuildFails (P : Parsed) : Bool :=
   let (sr, rr) := specCounts P
@@ -118,7 +140,10 @@ def handle (args : List Nat) : String :=
   | some P =>
     if !P.G.wf then "V fail dumped grammar is not well-formed" else
     let anyAR := (specCells P).flatten.any (·.isNone)
-    let v1 := if precConsistent P.G then [] else ["V fail precedence levels inconsistent: equal level with different kinds"]
+    let v1 := (if precConsistent P.G then [] else ["V fail precedence levels inconsistent: equal level with different kinds"]) ++
+      (match badProdPrecs P with
+       | [] => []
+       | ps => [s!"V fail production-precedence-is-not-that-of-its-%prec-or-last-token productions={ps}"])
     let lines := [s!"M {modelLine P}", s!"S2 {specLine P}",
       s!"SE arconflict={if anyAR then 1 else 0} fails={if specBuildFails P then 1 else 0}"]
     "\n".intercalate (lines ++ (if v1.isEmpty then ["V ok"] else v1))
